@@ -595,6 +595,30 @@ class Interp(object):
         raise AnalysisError('cannot resolve handler type %s' % norm(texpr))
 
     def st_With(self, s):
+        # with contextlib.suppress(E, ...): body   ==   try: body / except (E, ...): pass
+        if len(s.items) == 1 and isinstance(s.items[0].context_expr, ast.Call) and s.items[0].optional_vars is None:
+            ce = s.items[0].context_expr
+            ref = None
+            if isinstance(ce.func, (ast.Name, ast.Attribute)):
+                try:
+                    ref = self.P.resolve_expr_ref(self.frames[-1].fi.module, ce.func)
+                except AnalysisError:
+                    ref = None
+            if isinstance(ref, External) and ref.name == 'contextlib.suppress' and not ce.keywords:
+                specs = [self.handler_spec(a) for a in ce.args]
+                fr = self.frames[-1]
+                try:
+                    fr.handlers.append(specs)
+                    try:
+                        self.exec_block(s.body)
+                    finally:
+                        fr.handlers.pop()
+                except AbsRaise as e:
+                    if any(exc_matches(e.exc.exc, sp) for sp in specs):
+                        self.emit('caught', s, {'exc': e.exc.exc, 'raise': e})
+                        return
+                    raise
+                return
         ctxs = []
         for item in s.items:
             v = self.eval(item.context_expr)
@@ -672,6 +696,11 @@ class Interp(object):
                 self.eval(sl.upper) if sl.upper else None,
                 self.eval(sl.step) if sl.step else None)
 
+    def ex_NamedExpr(self, e):
+        v = self.eval(e.value)
+        self.assign(e.target, v, e)
+        return v
+
     def ex_Tuple(self, e):
         return tuple(self.eval(x) for x in e.elts)
 
@@ -712,7 +741,25 @@ class Interp(object):
                 parts.append(x)
         if all(isinstance(p, str) for p in parts):
             return ''.join(parts)
-        return Unk('fstring', kinds=['str'], taint=taint, src=('format', None, parts))
+        # the same abstract value as the equivalent '%s' template: literal pieces with one %s per interpolated value
+        fmt = ''
+        args = []
+        simple = True
+        for v, p_ in zip(e.values, parts):
+            if isinstance(v, ast.Constant):
+                fmt += str(p_).replace('%', '%%')
+            else:
+                if v.format_spec is not None or v.conversion not in (-1, 115):      # only {x} and {x!s}
+                    simple = False
+                fmt += '%s'
+                args.append(p_)
+        if not simple:
+            return Unk('fstring', kinds=['str'], taint=taint, src=('format', None, parts))
+        u = Unk('fstring', kinds=['str'], taint=taint, src=('format', fmt, args))
+        import re as _re
+        if _re.sub(r'%s', '', fmt):
+            u.facts.add('truthy')
+        return u
 
     def ex_UnaryOp(self, e):
         v = self.eval(e.operand)
@@ -757,12 +804,17 @@ class Interp(object):
     def ex_Compare(self, e):
         left = self.eval(e.left)
         result = True
-        for op, c in zip(e.ops, e.comparators):
+        n_ops = len(e.ops)
+        for i_, (op, c) in enumerate(zip(e.ops, e.comparators)):
             right = self.eval(c)
             r = self.models.compare(self, op, left, right, e)
             if r is False:
                 return False
-            if r is not True:
+            if i_ < n_ops - 1:
+                # a < b < c is (a < b) and (b < c): the first test is decided (and its facts recorded) before the second
+                if r is not True and not self.truth(r, e):
+                    return False
+            elif r is not True:
                 result = r
             left = right
         return result
